@@ -54,6 +54,7 @@ Definition rename_tdata (phi : renaming) (d : tdata) : tdata :=
   | TCoef c fs => TCoef (r_coef phi c) fs
   | TLabel c => TLabel (r_label phi c)
   | TRepr ps => TRepr (map (rename_piece phi) ps)
+  | TGeo k m => TGeo k (r_mesh phi m)
   end.
 Fixpoint rename (phi : renaming) (t : tree) : tree :=
   match t with
@@ -106,20 +107,21 @@ Lemma kind_rename phi d : kind (rename_tdata phi d) = kind d.
 Proof. destruct d; reflexivity. Qed.
 
 Lemma cmp_tdata_rename s phi d e :
-  mono (r_coef phi) -> cfree_data d = true -> cfree_data e = true ->
+  mono (r_coef phi) -> mono (r_mesh phi) -> cfree_data d = true -> cfree_data e = true ->
   cmp_tdata s (rename_tdata phi d) (rename_tdata phi e) = cmp_tdata s d e.
 Proof.
-  intros Hm Hd He. destruct d, e; simpl in *; try reflexivity.
+  intros Hm Hg Hd He. destruct d, e; simpl in *; try reflexivity.
   - destruct s; [apply lex_map | apply zipc_map]; apply Forall_all; intros; apply cmp_idx_rename.
   - apply mono_compare, Hm.
   - rewrite (rename_lit_pieces phi ps Hd), (rename_lit_pieces phi ps0 He). reflexivity.
+  - rewrite (mono_compare _ Hg). reflexivity.
 Qed.
 
-Theorem C12_cmp_rename_partial : forall s phi, mono (r_coef phi) ->
+Theorem C12_cmp_rename_partial : forall s phi, mono (r_coef phi) -> mono (r_mesh phi) ->
   forall a b, cfree a = true -> cfree b = true ->
   cmpg s (rename phi a) (rename phi b) = cmpg s a b.
 Proof.
-  intros s phi Hm a. induction a as [ta da | ta oa IH] using tree_ind'; intros [tb db | tb ob] Ha Hb;
+  intros s phi Hm Hg a. induction a as [ta da | ta oa IH] using tree_ind'; intros [tb db | tb ob] Ha Hb;
     simpl in *; try reflexivity.
   - rewrite cmp_tdata_rename by assumption. reflexivity.
   - rewrite !map_length. f_equal. f_equal.
@@ -210,13 +212,13 @@ Proof.
     apply andb_true_iff in H. destruct H as [H1 H2]. rewrite (Hx H1), (IHl H2). reflexivity.
 Qed.
 
-Theorem C12_build_rename : forall s phi, mono (r_coef phi) ->
+Theorem C12_build_rename : forall s phi, mono (r_coef phi) -> mono (r_mesh phi) ->
   forall sc, scfree sc = true -> build s (rename_script phi sc) = rename phi (build s sc).
 Proof.
-  intros s phi Hm. induction sc as [tc d | tc a b IHa IHb | tc args IH] using script_ind'; simpl; intro H.
+  intros s phi Hm Hg. induction sc as [tc d | tc a b IHa IHb | tc args IH] using script_ind'; simpl; intro H.
   - reflexivity.
   - apply andb_true_iff in H. destruct H as [Ha Hb]. rewrite (IHa Ha), (IHb Hb). unfold sort2g.
-    rewrite (C12_cmp_rename_partial s phi Hm) by (apply build_cfree; assumption).
+    rewrite (C12_cmp_rename_partial s phi Hm Hg) by (apply build_cfree; assumption).
     destruct (is_lt (cmpg s (build s b) (build s a))); reflexivity.
   - f_equal. induction IH as [|x l Hx _ IHl]; simpl in *; [reflexivity|].
     apply andb_true_iff in H. destruct H as [H1 H2]. rewrite (Hx H1), (IHl H2). reflexivity.
@@ -277,6 +279,7 @@ Definition data_counts (k : counter) (d : tdata) : list N :=
   | KLabel, TLabel c => [c]
   | KConst, TRepr ps => piece_counts CConstant ps
   | KMesh, TRepr ps => piece_counts CMesh ps
+  | KMesh, TGeo _ m => [m]
   | _, _ => []
   end.
 Fixpoint counts (k : counter) (t : tree) : list N :=
@@ -331,6 +334,7 @@ Definition canon_tdata (c : ctx) (d : tdata) : tdata :=
   | TCoef n fs => TCoef (rank n (c_coef c)) fs
   | TLabel n => TLabel (rank n (c_label c))
   | TRepr ps => TRepr (map (canon_piece c) ps)
+  | TGeo k n => TGeo k (rank n (c_mesh c))
   end.
 Fixpoint canon_with (c : ctx) (t : tree) : tree :=
   match t with
@@ -350,6 +354,7 @@ Proof.
   - f_equal. rewrite map_map. apply map_ext. intros [s | [|] n]; simpl; try reflexivity.
     + rewrite (rank_map _ Hk). reflexivity.
     + rewrite (rank_map _ Hm). reflexivity.
+  - rewrite (rank_map _ Hm). reflexivity.
 Qed.
 
 Lemma canon_with_rename phi c : mono_all phi ->
@@ -379,7 +384,8 @@ Section Sig.
     forall sc, scfree sc = true -> sig s (rename_script phi sc) = sig s sc.
   Proof.
     intros s phi Hm sc Hf. unfold sig.
-    rewrite (C12_build_rename s phi (proj1 (proj2 Hm)) sc Hf), (C12_canon_rename phi Hm). reflexivity.
+    destruct Hm as (Hi & Hc & Hl & Hk & Hg).
+    rewrite (C12_build_rename s phi Hc Hg sc Hf), (C12_canon_rename phi (conj Hi (conj Hc (conj Hl (conj Hk Hg))))). reflexivity.
   Qed.
 
   (** with an injective hash the signature of Constant 1 * Constant 2 changes when the same script is
@@ -397,6 +403,16 @@ Section Sig.
   Qed.
 End Sig.
 
+(** with fixes/C12-geometry-cmp-by-domain-id.diff a geometric quantity is a [TGeo] leaf: it belongs to the
+    counter-free class ([cfree_data (TGeo _ _) = true]), so the invariance theorems above apply unguarded
+    to forms whose only counted terminals are coefficients, constants ordered by count, labels, indices and
+    geometric quantities; in particular the mesh-id refutation no longer applies to them: *)
+Definition coordinate_leaf_repaired (m : N) : tree := Leaf 0 (TGeo "E" m).
+Theorem C12_cmp_rename_geo_repaired : forall phi, mono (r_coef phi) -> mono (r_mesh phi) -> forall m1 m2,
+  cmp (rename phi (coordinate_leaf_repaired m1)) (rename phi (coordinate_leaf_repaired m2)) =
+  cmp (coordinate_leaf_repaired m1) (coordinate_leaf_repaired m2).
+Proof. intros phi Hc Hg m1 m2. apply C12_cmp_rename_partial; try assumption; reflexivity. Qed.
+
 (** executable helpers for the generated correspondence (coq/Gen/C12_*.v) *)
 Definition shift5 (di dc dl dk dm : N) : renaming :=
   {| r_idx := fun n => n + di; r_coef := fun n => n + dc; r_label := fun n => n + dl;
@@ -405,6 +421,7 @@ Lemma shift5_mono di dc dl dk dm : mono_all (shift5 di dc dl dk dm).
 Proof. repeat split; simpl; apply mono_add. Qed.
 
 Print Assumptions C12_cmp_rename_partial.
+Print Assumptions C12_cmp_rename_geo_repaired.
 Print Assumptions C12_cmp_rename_refuted.
 Print Assumptions C12_cmp_rename_refuted_mesh.
 Print Assumptions C12_build_rename.
